@@ -57,11 +57,18 @@ func (x *c08run) one(stream string, index int, text string, kinds []string) {
 	default:
 		impl = res.Outcome
 	}
-	x.bt.Add(func(model string) {
-		if !c.Compare(stream, index, "c08format", in, impl, model) && len(x.suspects) < 8 && len(text) < 5000 {
-			x.suspects = append(x.suspects, text)
-		}
-	}, "c08format", Hex(path), Hex(text))
+	// the model slices lists: its cost grows with (fields of the tree) x (bytes of the text); above the limit the case keeps
+	// the monitors (formatOK through its Go mirror, which is compared with the Lean predicate on every case below the limit)
+	lean := res.Outcome != "ok" || c08Work(res, text) <= c08LeanLimit(c)
+	if lean {
+		x.bt.Add(func(model string) {
+			if !c.Compare(stream, index, "c08format", in, impl, model) && len(x.suspects) < 8 && len(text) < 5000 {
+				x.suspects = append(x.suspects, text)
+			}
+		}, "c08format", Hex(path), Hex(text))
+	} else {
+		c.Tag(stream + "/above-model-limit")
+	}
 	if res.Outcome != "ok" {
 		c.Class("rejected/" + synClass(res, nil))
 		c.Tag(stream + "/rejected")
@@ -86,12 +93,81 @@ func (x *c08run) one(stream string, index int, text string, kinds []string) {
 		return
 	}
 	// monitor 2: same directives and fields, gaps byte for byte (Lean predicate formatOK on the two real trees)
-	x.bt.Add(func(mon string) {
-		c.Monitor(stream, index, "formatOK", in, mon == "ok", "formatted text "+clipTo(fmt.Sprintf("%q", out), 600)+" => "+mon)
-	}, "c08mon", Hex(text), res.Dump, Hex(out), res2.Dump)
+	mirror := c08FormatOK(text, res, out, res2)
+	if lean {
+		x.bt.Add(func(mon string) {
+			c.Monitor(stream, index, "formatOK", in, mon == "ok", "formatted text "+clipTo(fmt.Sprintf("%q", out), 600)+" => "+mon)
+			c.Compare(stream, index, "c08mon(Go mirror of formatOK)", in, mirror, mon)
+		}, "c08mon", Hex(text), res.Dump, Hex(out), res2.Dump)
+	} else {
+		c.Monitor(stream, index, "formatOK(Go mirror)", in, mirror == "ok", "formatted text "+clipTo(fmt.Sprintf("%q", out), 600)+" => "+mirror)
+	}
 	// monitor 3: formatting the result again changes nothing
 	out2, oc2 := implFormat(res2)
 	c.Monitor(stream, index, "C08_idempotent", in, oc2 == "ok" && out2 == out, "first "+clipTo(fmt.Sprintf("%q", out), 400)+" second "+clipTo(fmt.Sprintf("%q", out2), 400)+" "+oc2)
+}
+
+// c08Work estimates what the model spends on a parsed text: every field is a `drop` from the start of the text.
+func c08Work(res synResult, text string) int {
+	return (strings.Count(res.Dump, ",")/4 + 1) * len(text)
+}
+
+func c08LeanLimit(c *Ctx) int {
+	return c.N(30000000, 60000000)
+}
+
+// c08FormatOK is Spec.Syntax.formatOK (lean/Knut/Spec/SyntaxFormat.lean) on the two real trees, in Go: the kinds of all nodes
+// in prefix order with the bytes of every field (date, account, macro account, commodity, decimal, content, interval) equal,
+// and the text before, between and after the directives equal.  The answer has the form of the driver's `c08mon`.
+func c08FormatOK(text string, res synResult, out string, res2 synResult) string {
+	var w1, w2 synWalk
+	r1, r2 := w1.file(res.File), w2.file(res2.File)
+	var a, b strings.Builder
+	sem := c08SemFlat(text, r1, &a) && c08SemFlat(out, r2, &b) && a.String() == b.String()
+	g1, g2 := c08Gaps(text, r1), c08Gaps(out, r2)
+	gaps := len(g1) == len(g2)
+	for i := 0; gaps && i < len(g1); i++ {
+		gaps = g1[i] == g2[i]
+	}
+	if sem && gaps {
+		return "ok"
+	}
+	return fmt.Sprintf("fail fields=%v gaps=%v", sem, gaps)
+}
+
+func c08SemFlat(text string, n *synNode, b *strings.Builder) bool {
+	switch n.Kind {
+	case kDate, kAccount, kMacroAccount, kCommodity, kDecimal, kContent, kInterval:
+		if !(n.Start <= n.End && n.End <= len(text)) || n.Start < 0 {
+			return false
+		}
+		fmt.Fprintf(b, "f%d:%d:%s;", n.Kind, n.End-n.Start, text[n.Start:n.End])
+		return true
+	}
+	fmt.Fprintf(b, "(%d;", n.Kind)
+	for _, k := range n.Kids {
+		if !c08SemFlat(text, k, b) {
+			return false
+		}
+	}
+	b.WriteString(");")
+	return true
+}
+
+// c08Gaps is Spec.Syntax.gapsOf text 0 (ranges of the directives); a slice is clamped as the model's `slice` is
+func c08Gaps(text string, root *synNode) []string {
+	slice := func(a, b int) string {
+		n := max(b-a, 0)
+		a = min(max(a, 0), len(text))
+		return text[a:min(a+n, len(text))]
+	}
+	var res []string
+	pos := 0
+	for _, d := range root.Kids {
+		res = append(res, slice(pos, d.Start))
+		pos = d.End
+	}
+	return append(res, slice(pos, len(text)))
 }
 
 // runFormatCLI runs `knut format files...` and returns exit status and stderr.
@@ -121,9 +197,11 @@ func runFormatCLI(knut string, files ...string) (int, string) {
 }
 
 // cli: the command on real files (one or two files per invocation).
-func (x *c08run) cli(index int, texts []string) {
+func (x *c08run) cli(index int, texts []string) { x.cliStream("cli", index, texts) }
+
+func (x *c08run) cliStream(stream string, index int, texts []string) {
 	c := x.c
-	dir := filepath.Join(c.WorkDir, fmt.Sprintf("c08-%d", index))
+	dir := filepath.Join(c.WorkDir, fmt.Sprintf("c08-%s-%d", stream, index))
 	os.MkdirAll(dir, 0o755)
 	defer os.RemoveAll(dir)
 	var files []string
@@ -142,34 +220,51 @@ func (x *c08run) cli(index int, texts []string) {
 		in := textInput(t, nil)
 		in["files_in_invocation"] = len(texts)
 		if err != nil {
-			c.Monitor("cli", index, "C08_file_survives", in, false, err.Error())
+			c.Monitor(stream, index, "C08_file_survives", in, false, err.Error())
 			continue
 		}
 		impl := "ok " + Hex(string(after))
-		parsed := implParse(t, files[i]).Outcome == "ok"
+		pr := implParse(t, files[i])
+		parsed := pr.Outcome == "ok"
 		if !parsed {
 			anyRejected = true
 			impl = "rejected"
 			// monitor: a file that does not parse is left exactly as it was
-			c.Monitor("cli", index, "C08_unparseable_untouched", in, string(after) == t, fmt.Sprintf("file after: %q (exit %d, %s)", clipTo(string(after), 300), status, clipTo(stderr, 200)))
-			c.Tag("cli/rejected")
+			c.Monitor(stream, index, "C08_unparseable_untouched", in, string(after) == t, fmt.Sprintf("file after: %q (exit %d, %s)", clipTo(string(after), 300), status, clipTo(stderr, 200)))
+			c.Tag(stream + "/rejected")
 		} else {
-			c.Tag("cli/formatted")
+			c.Tag(stream + "/formatted")
+			// monitors on the file the command left: it parses, to the same directives and fields with the same gaps, and is a
+			// fixed point of the formatter
+			pa := implParse(string(after), files[i])
+			if c.Monitor(stream, index, "C08_reparse(file after the command parses)", in, pa.Outcome == "ok", fmt.Sprintf("file after: %q => %s", clipTo(string(after), 600), clipTo(pa.String(), 300))) {
+				mirror := c08FormatOK(t, pr, string(after), pa)
+				c.Monitor(stream, index, "formatOK(Go mirror, file after the command)", in, mirror == "ok", fmt.Sprintf("file after: %q => %s", clipTo(string(after), 600), mirror))
+				again, oc := implFormat(pa)
+				c.Monitor(stream, index, "C08_idempotent(file after the command)", in, oc == "ok" && again == string(after), fmt.Sprintf("file after: %q formatted again: %q %s", clipTo(string(after), 400), clipTo(again, 400), oc))
+			}
 		}
 		i := i
-		x.bt.Add(func(model string) {
-			c.Compare("cli", index, fmt.Sprintf("c08format(file %d of %d)", i, len(texts)), in, impl, model)
-		}, "c08format", Hex(files[i]), Hex(t))
+		if !parsed || c08Work(pr, t) <= c08LeanLimit(c) {
+			x.bt.Add(func(model string) {
+				c.Compare(stream, index, fmt.Sprintf("c08format(file %d of %d)", i, len(texts)), in, impl, model)
+			}, "c08format", Hex(files[i]), Hex(t))
+		} else {
+			// above the model's limit: the command against syntax.FormatFile in process (whose output carries the monitors of stream big)
+			out, oc := implFormat(pr)
+			c.Compare(stream, index, fmt.Sprintf("command vs syntax.FormatFile in process (file %d of %d)", i, len(texts)), in, impl, oc+" "+Hex(out))
+			c.Tag(stream + "/above-model-limit")
+		}
 		// other leftovers in the directory (temp files of the atomic write) would show a partial write
 	}
 	ents, _ := os.ReadDir(dir)
-	c.Monitor("cli", index, "C08_no_leftover_files", map[string]any{"files": len(texts)}, len(ents) == len(texts), fmt.Sprintf("%d entries in the directory", len(ents)))
+	c.Monitor(stream, index, "C08_no_leftover_files", map[string]any{"files": len(texts)}, len(ents) == len(texts), fmt.Sprintf("%d entries in the directory", len(ents)))
 	wantStatus := 0
 	if anyRejected {
 		wantStatus = 1
 	}
-	c.Compare("cli", index, "exit status", map[string]any{"texts_hex": hexAll(texts)}, fmt.Sprint(status), fmt.Sprint(wantStatus))
-	c.Class(fmt.Sprintf("cli/files%d/status%d", len(texts), status))
+	c.Compare(stream, index, "exit status", map[string]any{"texts_hex": hexAll(texts)}, fmt.Sprint(status), fmt.Sprint(wantStatus))
+	c.Class(fmt.Sprintf("%s/files%d/status%d", stream, len(texts), status))
 }
 
 func hexAll(ts []string) []string {
@@ -240,6 +335,54 @@ func synFormatStress(r *RNG) (string, []string) {
 	return b.String(), kinds
 }
 
+// big: files of hundreds to thousands of directives, transactions of 1-40 bookings, running counts (bookings, directives,
+// transactions, lines, bytes, bytes of one line) steered across powers of two inside a directive (c08_big.go); bigcli: such
+// files through the command
+func (x *c08run) big() {
+	c := x.c
+	t0 := time.Now()
+	nB := c.N(120, 900)
+	for i := 0; i < nB; i++ {
+		if !c.Want("big", i) {
+			continue
+		}
+		scale := c08BigScale(c, i)
+		text, kinds := c08Big(c.Rng("big", i), scale)
+		x.one("big", i, text, kinds)
+		if len(text) > 20000 {
+			x.bt.Flush()
+		}
+	}
+	x.bt.Flush()
+	nBC := c.N(8, 60)
+	for i := 0; i < nBC; i++ {
+		if !c.Want("bigcli", i) {
+			continue
+		}
+		r := c.Rng("bigcli", i)
+		texts := []string{}
+		for k := r.Range(1, 2); k > 0; k-- {
+			t, _ := c08Big(r, c08BigScale(c, i))
+			texts = append(texts, t)
+		}
+		x.cliStream("bigcli", i, texts)
+		x.bt.Flush()
+	}
+	c.Extra["big_wall_s"] = time.Since(t0).Seconds()
+}
+
+// c08BigScale bounds the largest boundary value of a case of the stream `big` (index into the size tables of c08_big.go):
+// the quick tier keeps nine files in ten below 1000 directives, every tenth and the thorough tier go up to 4096 / 131072 bytes.
+func c08BigScale(c *Ctx, index int) int {
+	if c.Thorough() {
+		return 4
+	}
+	if index%10 == 9 {
+		return 4
+	}
+	return index % 3
+}
+
 func runC08(c *Ctx) {
 	x := &c08run{c: c, bt: c.NewBatch()}
 	x.bt.Limit = 3000
@@ -249,14 +392,19 @@ func runC08(c *Ctx) {
 		if h, ok := c.ReplayInput["text_hex"].(string); ok && !strings.HasSuffix(h, "...") {
 			if b, err := hex.DecodeString(h); err == nil {
 				c.Replay = false
-				if c.OnlyStr == "cli" {
-					x.cli(c.OnlyIndex, []string{string(b)})
+				if c.OnlyStr == "cli" || c.OnlyStr == "bigcli" {
+					x.cliStream(c.OnlyStr, c.OnlyIndex, []string{string(b)})
 				} else {
 					x.one(c.OnlyStr, c.OnlyIndex, string(b), nil)
 				}
 				return
 			}
 		}
+	}
+
+	if os.Getenv("C08_STREAMS") == "big" { // development aid: only the size streams
+		x.big()
+		return
 	}
 
 	// ---- corpus
@@ -327,6 +475,9 @@ func runC08(c *Ctx) {
 		}
 	}
 	x.bt.Flush()
+
+	// ---- big, bigcli: size (c08_big.go)
+	x.big()
 
 	// ---- cli: the command on files (in place), one or two files per run
 	nC := c.N(300, 4000)
